@@ -737,6 +737,10 @@ class StatefulDStream(DStream):
         self._prev._step(time_)
         self._current_time = time_
 
+        # apply the update function exactly once per key and interval:
+        # a lazy mapValues would run it again for every consumer and
+        # for the next interval's cogroup, on the same state object
         combined = self._prev._current_rdd.cogroup(self._state_rdd)
-        self._state_rdd = combined.mapValues(self.convert_fn)
+        self._state_rdd = self._context._context.parallelize(
+            combined.mapValues(self.convert_fn).collect())
         self._current_rdd = self._state_rdd
